@@ -58,7 +58,21 @@ def run(ctx, res):
               b" \t\r\n" * 6, b"QUJD", b"QUJD" * 7, bytes(range(256))]
     # large values (largeBlob payloads, long chains): sizes around 48 KiB / 64 KiB of text and beyond
     big = [rng.bytes_(n) for n in ([49150, 49152, 49153, 65535, 65536, 65537, 3 * 65536 // 4 + 1, 200000] + ([] if ctx.quick() else [1 << 20]))]
-    inputs = short + rand + texty + big
+    # byte strings whose *encoding* spells something a program might treat specially: literals, keywords, words
+    import base64
+    WORDS = ["null", "None", "true", "false", "True", "False", "NaN", "nil", "void", "undefined", "Infinity", "0", "00", "000", "0000",
+             "AAAA", "____", "----", "test", "data", "user", "admin", "root", "pass", "password", "token", "secret", "default", "empty",
+             "none", "NULL", "TRUE", "_id", "id", "key", "YQ", "YWI", "YWJj", "Zm9v", "YmFy", "e30", "W10", "eyJ9", "bnVsbA", "dW5kZWZpbmVk"]
+    wordy = []
+    for w in WORDS:
+        try:
+            b = base64.urlsafe_b64decode(w + "=" * (-len(w) % 4))
+        except Exception:
+            continue
+        if base64.urlsafe_b64encode(b).decode().rstrip("=") == w:     # w is the canonical encoding of b
+            wordy.append(b)
+    inputs = short + rand + texty + big + wordy
+    every_padding = set(wordy) | set(texty)
     res.exhaustive = True
     seen_enc = {}
     # --- encode: code vs model, alphabet, injectivity
@@ -91,7 +105,7 @@ def run(ctx, res):
     dec_cases = []
     for b in inputs:
         e = bytes_to_base64url(b)
-        pads = range(0, 4) if len(b) <= 2 else [rng.randrange(0, 6)]
+        pads = range(0, 4) if (len(b) <= 2 or b in every_padding) else [0, rng.randrange(1, 6)]
         for k in pads:
             dec_cases.append((b, e + "=" * k))
     for i in range(0, len(dec_cases), CH):
@@ -110,6 +124,20 @@ def run(ctx, res):
                                        "match": {"op": "b64_decode"}})
             if model is not None and model[j] is not None and not same_outcome(c, model[j]):
                 res.disagreements.append({"why": "decode differs", "text": s, "code": c, "model": model[j]})
+    # --- mutable byte-like inputs changed in place between two conversions: each conversion is of the bytes as they are now
+    for k in range(40):
+        buf = bytearray(rng.bytes_(rng.choice([1, 3, 16, 33])))
+        for view in (buf, memoryview(buf)):
+            first = bytes_to_base64url(view)
+            buf[0] ^= 0xFF
+            buf[-1] = (buf[-1] + 1) % 256
+            second = bytes_to_base64url(view)
+            res.evaluations += 2
+            want = base64.urlsafe_b64encode(bytes(buf)).decode().rstrip("=")
+            c = code_decode(second)
+            if second != want or c["k"] != "accept" or c["record"] != bytes(buf).hex():
+                res.violations.append({"why": f"a {type(view).__name__} changed in place between two conversions is encoded as its old content",
+                                       "input": bytes(buf).hex(), "encoded": second, "match": {"op": "b64_encode", "relation": "mutable-input"}})
     # --- lenient decoder on arbitrary text (equality of outcomes; no property predicate applies)
     n_text = 3000 if ctx.quick() else 60000
     alph = "ABCDEFGHIJKLMNOPQRSTUVWXYZabcdefghijklmnopqrstuvwxyz0123456789-_+/="
